@@ -51,6 +51,9 @@ type XCase struct {
 	Programs   [][]XOp `json:"programs"`
 	Decs       []XDec  `json:"decs,omitempty"`        // controlled mode
 	FailPct    int     `json:"failpct,omitempty"`     // free-running mode: percentage of creations that fail
+	// ErrKind: the shape of the error value every failing creation of the case returns (modulo NErrKinds, see errkinds.go; 0 = the
+	// harness' plain sentinel): wrapped, a library error class, a typed nil pointer, a value whose Error method panics, ...
+	ErrKind int `json:"errkind,omitempty"`
 	Yields     int     `json:"yields,omitempty"`      // free-running mode: Gosched calls inside the create function
 	NoCB       bool    `json:"no_cb,omitempty"`       // the cache is built without a delete callback: judged on returned values, creations and Clear counts only
 	SlowDelete bool    `json:"slow_delete,omitempty"` // free-running mode: the delete callback takes tens of microseconds
@@ -100,6 +103,7 @@ type xgate struct {
 type xrun struct {
 	c        XCase
 	prop     string // property the run reports to (C09; C11 for the structural unit)
+	errCreate error // what a failing creation returns
 	get      func(k string) (id, kind int, err error)
 	remove   func(k string) bool
 	clear    func() int
@@ -176,7 +180,7 @@ func (x *xrun) create(k string) (int, int, error) {
 			rec.Failed++
 		}
 		x.mu.Unlock()
-		return 0, 0, errCreate
+		return 0, 0, x.errCreate
 	}
 	if !x.free && !x.epilogue {
 		gate = &xgate{ch: make(chan int, 1), worker: -2}
@@ -215,7 +219,7 @@ func (x *xrun) create(k string) (int, int, error) {
 		if rec != nil {
 			rec.Failed++
 		}
-		return 0, 0, errCreate
+		return 0, 0, x.errCreate
 	}
 	v := int(x.nextVal.Add(1))
 	x.created[v] = xval{k, kind}
@@ -307,9 +311,9 @@ func (x *xrun) do(w int, op XOp) {
 		v, kind, err := x.get(rec.Key)
 		rec.Ret = x.stamp.Add(1)
 		rec.Val, rec.Nil, rec.Err = v, kind, err != nil
-		if err != nil && !errors.Is(err, errCreate) {
+		if err != nil && !sameErr(err, x.errCreate) {
 			x.mu.Lock()
-			x.setViol("lru:foreign-error", "GetOrCreate(%q) returned %v, which the create function never produced", rec.Key, err)
+			x.setViol("lru:foreign-error", "GetOrCreate(%q) returned %s, which the create function never produced", rec.Key, errText(err))
 			x.mu.Unlock()
 		}
 	case "r":
@@ -346,6 +350,10 @@ func newXrun(c XCase, mode, prop, testName string) (*xrun, error) {
 	x := &xrun{c: c, prop: prop, free: mode == modeFree, testName: testName, cur: map[uint64]*XRec{}, inFl: map[string]int{}, created: map[int]xval{}, deleted: map[int]int{},
 		gates: map[string]*xgate{}, inGet: map[string]int{}}
 	x.freeSlowDelete = x.free && c.SlowDelete
+	x.errCreate = errCreate
+	if k := normErr(c.ErrKind); k != ErrPlain {
+		x.errCreate = makeErr(k, 1)
+	}
 	if c.Iface {
 		// the value type is an interface type; a non-nil value is a *box carrying its id, a nil value carries nothing
 		unbox := func(v any) (int, int) {
